@@ -1,8 +1,10 @@
 package desync
 
 import (
+	"bytes"
 	"encoding/binary"
 	"io"
+	"math"
 )
 
 type reader struct {
@@ -22,11 +24,19 @@ func (r reader) ReadUint64() (uint64, error) {
 // ReadN returns the next n bytes from the reader or an error if there are not
 // enough left
 func (r reader) ReadN(n uint64) ([]byte, error) {
-	b := make([]byte, n)
-	if _, err := io.ReadFull(r, b); err != nil {
+	if n > math.MaxInt64 {
+		return nil, io.ErrUnexpectedEOF
+	}
+	// n is typically taken from the input. Don't allocate it all up front but
+	// grow the buffer as data is being read.
+	var b bytes.Buffer
+	if _, err := io.CopyN(&b, r, int64(n)); err != nil {
+		if err == io.EOF && b.Len() > 0 {
+			err = io.ErrUnexpectedEOF
+		}
 		return nil, err
 	}
-	return b, nil
+	return b.Bytes(), nil
 }
 
 // ReadID reads and returns a ChunkID
